@@ -740,7 +740,10 @@ def hand_edited_customs(u, rng):
     c, csch = U4.custom_dicts(u, S3, condtype='Air', cop=2.5, coolcap=25.0, bldtype='depot', builtera='pre80')
     c['building']['heat_cap'] = None                          # null
     c['building'].update(coolcap=25, infil=1, vent=0)
-    return [(a, asch), (b, bsch), (c, csch)]
+    # (seventh round) an archetype WITHOUT heating plant: heat_cap typed as 0 - a value, not "absent"
+    e, esch = U4.custom_dicts(u, S3, condtype='AIR', cop=3.0, coolcap=60.0, bldtype='shed', builtera='new')
+    e['building']['heat_cap'] = 0
+    return [(a, asch), (b, bsch), (c, csch), (e, esch)]
 
 
 def circumstance_ties(chk, quick):
@@ -749,13 +752,13 @@ def circumstance_ties(chk, quick):
     work = chk.work()
     par_t, epw_t = U4.toronto()
     customs = hand_edited_customs(u, chk.rng)
-    stock = [('studio', 'new', 0.3), ('lab', 'pst80', 0.3), ('depot', 'pre80', 0.2), ('largeoffice', 'pst80', 0.2)]
+    stock = [('studio', 'new', 0.3), ('lab', 'pst80', 0.3), ('depot', 'pre80', 0.2), ('largeoffice', 'pst80', 0.1), ('shed', 'new', 0.1)]
     about = {'custom archetypes (building dictionaries as typed)': {
         '%s/%s' % (b['bldtype'], b['builtera']): {k: b['building'].get(k, '<key absent>') for k in
                                                   ('heat_cap', 'coolcap', 'cop', 'floor_height', 'heateff')}
         for b, _ in customs}}
     scen = [U4.make_spec('toronto 10 Jan, zone 5A: three hand-edited custom archetypes (heat_cap typed as 30 / key '
-                         'absent / null) + largeoffice', epw=epw_t, param=par_t, customs=customs, about=about, month=1,
+                         'absent / null / 0 = no heating plant) + largeoffice', epw=epw_t, param=par_t, customs=customs, about=about, month=1,
                          day=10, nday=1, dtsim=300, zone='5A', bld=stock),
             U4.make_spec('singapore 1 Jul: the same custom archetypes (coolcap typed as 90 / 45.0 / 25)', customs=customs,
                          about=about, month=7, day=2, nday=1, dtsim=300, bld=stock)]
@@ -774,12 +777,13 @@ def circumstance_ties(chk, quick):
                          % sorted(cold))
     chk.direct('C14-circumstances(live runs: observers, logging, -O, CLI / JSON route, other models, caller data)',
                sum(counts.values()), len(scen),
-               'oracle = the C14 statement (1e-9 relative) at every BEMCalc call, and for every archetype that came '
+               'oracle = the C14 statement (1e-9 relative) at every BEMCalc call, and for every archetype that came (seventh round: one of them typed with heat_cap 0 - no heating plant - on the cold day) '
                'from a building DICTIONARY a second time with the capacities as typed there (heat_cap typed as an int, '
                'left out, null -> documented default 999 W/m2; coolcap as int / float): delivery <= typed capacity, '
                'set-point reached below it; after generate() the archetype carries the typed capacities. Scenarios: '
                '%s. %s' % ('; '.join(s_['label'] for s_ in scen), U4.BATTERY_RULE), mismatches=nbad, branches=counts)
     dict_route_tie(chk, u, quick)
+    seventh_round_ties(chk, u, quick)
 
 
 NUM_KEYS = ['floor_height', 'int_heat_night', 'int_heat_day', 'int_heat_frad', 'int_heat_flat', 'infil', 'vent',
@@ -925,6 +929,138 @@ def dict_route_tie(chk, u, quick):
                'real float BEMCalc step obeys C14 with the capacities as typed; the caller\'s dictionary unchanged; '
                'to_dict() data not live; class-level digest unchanged. branches: heat_cap form x form of the '
                'previous dictionary; int-typed numbers; branch of the step', mismatches=len(bad), branches=counts)
+
+
+def seventh_round_ties(chk, u, quick):
+    """Seventh round (families in harness/x2_util.py). (a) the value ZERO on the dictionary route: every numeric key of a
+    building dictionary typed as 0 / 0.0 / -0.0, in a cold (heating) and a hot (cooling) state - refused, or in force as
+    typed and one real BEMCalc step obeys C14 with the capacities AS TYPED (heat_cap 0 = no heating plant: nothing is
+    delivered). (b) OPTION STRINGS (condtype) with blanks / tabs / line ends around them and in any letter case, through
+    constructor, setter, Building.from_dict and BEMDef.from_dict: refused, or the step is the step of the canonical
+    spelling (and obeys C14 for that condenser type)."""
+    import json as _json
+    import generic as G
+    import x2_util as X
+    rng = chk.rng
+    bem_tpl, _sch = U4.custom_dicts(u, S3)
+    counts, bad = {}, []
+
+    def count(k):
+        counts[k] = counts.get(k, 0) + 1
+
+    def plain_dict(c, condtext):
+        d = {'type': 'Building', 'condtype': condtext, 'initial_temp': 293}
+        for key, ck in CASE_OF_KEY.items():
+            d[key] = float(c[ck])
+        d['heat_cap'] = float(c['heatCap'])
+        return d
+
+    def make(route, d):
+        if route == 'BEMDef.from_dict':
+            bd = G.snapshot(bem_tpl)
+            bd['building'] = G.snapshot(d)
+            return u.BEMDef.from_dict(bd).building
+        if route == 'Building.from_dict':
+            return u.Building.from_dict(G.snapshot(d))
+        args = [d[k] for k in ('floor_height', 'int_heat_night', 'int_heat_day', 'int_heat_frad', 'int_heat_flat', 'infil',
+                               'vent', 'glazing_ratio', 'u_value', 'shgc')]
+        tail = [d[k] for k in ('cop', 'coolcap', 'heateff', 'initial_temp')]
+        if route == 'constructor':
+            b = u.Building(*(args + [d['condtype']] + tail))
+        else:                                                    # setter: made with the other option, then assigned
+            b = u.Building(*(args + ['WATER' if d['condtype'].strip().upper() == 'AIR' else 'AIR'] + tail))
+            b.condtype = d['condtype']
+        b.heat_cap = d['heat_cap']
+        return b
+    # ---- (a) zero
+    n = 0
+    reps = 1 if quick else 6
+    for key in NUM_KEYS + ['heat_cap']:
+        ck = CASE_OF_KEY.get(key, 'heatCap' if key == 'heat_cap' else None)
+        for z in (0, 0.0, -0.0):
+            for mode in ['heat', 'cool'] * reps:
+                n += 1
+                c = gen_case(rng, mode)
+                d = plain_dict(c, c['condText'])
+                d[key] = z
+                if ck:
+                    c[ck] = F(0)
+                route = rng.choice(['Building.from_dict', 'BEMDef.from_dict'])
+                via_json = rng.random() < 0.5
+                if via_json:
+                    d = _json.loads(_json.dumps(d))
+                case = {'building dictionary': G.snapshot(d), 'key typed as zero': '%s = %s' % (key, _json.dumps(z)),
+                        'route': route + (' after json.dumps / json.loads' if via_json else ''), 'state': mode}
+                try:
+                    b = make(route, d)
+                except Exception:                                 # noqa: BLE001 - zero outside the domain of this key
+                    count('zero refused:' + key)
+                    continue
+                count('zero accepted:' + key)
+                msg = None
+                if key != 'initial_temp' and getattr(b, key) != 0:
+                    msg = 'attribute %s of the object is %r; the dictionary says %s' % (key, getattr(b, key), _json.dumps(z))
+                r = float_bemcalc(b, c)
+                if isinstance(r, dict):
+                    cf = {k: (float(v) if isinstance(v, F) else v) for k, v in c.items()}
+                    count('zero step:' + classify_float(cf, r))
+                    m2 = oracle(cf, r, tol=1e-9)
+                    if m2:
+                        msg = '%s [capacities as typed in the dictionary: heat_cap %s W/m2, coolcap %s W/m2; %r floors; delivered ' \
+                              'heating Qheat = %r, cooling Qhvac = %r]%s' % (m2, _json.dumps(d['heat_cap']), _json.dumps(d['coolcap']),
+                                                                        r['nFloor'], r['Qheat'], r['Qhvac'], '; ' + msg if msg else '')
+                else:
+                    count('zero step:' + str(r))
+                if msg:
+                    bad.append((case, msg, 'the building the dictionary describes: zero is a value (heat_cap 0 = no heating plant), '
+                                           'delivery <= capacity as typed'))
+    if not any(k.startswith('zero step:heat') or k == 'zero step:idle' for k in counts) or not counts.get('zero accepted:heat_cap'):
+        raise core.Infra('zero family: heat_cap 0 is no longer accepted / no step evaluated: %s' % sorted(counts))
+    # ---- (b) option strings
+    routes = ('constructor', 'setter', 'Building.from_dict', 'BEMDef.from_dict')
+    for text in X.OPTION_TEXTS:
+        canon = text.strip().upper()
+        for route in routes:
+            for mode in (['cool'] if quick else ['cool', 'cool-lim', 'heat']):
+                n += 1
+                c = gen_case(rng, mode)
+                case = {'condtype as typed': text, 'route': route, 'state': mode,
+                        'building': {k: repr(float(c[ck])) for k, ck in CASE_OF_KEY.items()}}
+                try:
+                    b = make(route, plain_dict(c, text))
+                except Exception:                                 # noqa: BLE001
+                    count('option refused:%r' % text)
+                    continue
+                count('option accepted:%r' % text)
+                if canon not in ('AIR', 'WATER'):
+                    bad.append((case, 'condtype %r is accepted (stored as %r)' % (text, b.condtype), 'refused: neither AIR nor WATER'))
+                    continue
+                ref = make(route, plain_dict(c, canon))
+                c['cond'] = canon
+                r, r0 = float_bemcalc(b, c), float_bemcalc(ref, c)
+                msg = None
+                if isinstance(r, dict) and isinstance(r0, dict):
+                    cf = {k: (float(v) if isinstance(v, F) else v) for k, v in c.items()}
+                    dif = [k for k in OUT if r[k] != r0[k]]
+                    if dif:
+                        msg = 'the step of the building accepted with condtype %r (stored as %r) differs from the step of the same ' \
+                              'building with condtype %r: %s' % (text, b.condtype, canon, ', '.join(
+                                  '%s = %r vs %r' % (k, r[k], r0[k]) for k in dif[:4]))
+                        m2 = oracle(cf, r, tol=1e-9)
+                        if m2:
+                            msg += '; C14 for an %s-cooled system: %s' % (canon, m2)
+                elif r != r0:
+                    msg = 'step: %s; with condtype %r: %s' % (r if isinstance(r, str) else 'returns', canon,
+                                                               r0 if isinstance(r0, str) else 'returns')
+                if msg:
+                    bad.append((case, msg, 'refused, or exactly the step of the canonical spelling %r' % canon))
+    for case, msg, exp in bad[:4]:
+        chk.violation('impl-violation', 'C14 on buildings typed with zero entries / padded option strings', case=case, observed=msg,
+                      expected=exp)
+    chk.direct('C14-zero-entries-and-option-strings(dictionary route at 0 / 0.0 / -0.0; condtype with blanks, tabs, line ends, any case)',
+               n, n, seventh_round_ties.__doc__.replace('\n', ' ').replace('    ', ' ') + ' Keys: %s. Option texts: %s through %s.' % (
+                   ', '.join(NUM_KEYS + ['heat_cap']), ', '.join(repr(t) for t in X.OPTION_TEXTS), ', '.join(routes)),
+               mismatches=len(bad), branches=counts)
 
 
 def run(chk):
